@@ -1,9 +1,11 @@
 package props
 
 import (
+	"bufio"
 	"fmt"
 	"math"
 	"net/http"
+	"reflect"
 	"strings"
 
 	"github.com/go-openapi/runtime/middleware"
@@ -28,11 +30,89 @@ func init() {
 	}})
 }
 
+// Widening of the executor (nothing below is an input of the model: all of it is EQUIVALENT for the
+// code as it is, and chosen from a checksum of the input line, c05Mix, so that a case replays
+// identically):
+//   - the request value: hand-made with an empty or (no Accept line) a nil header map, or parsed by
+//     net/http from the wire when the lines survive that unchanged (found out by parsing and
+//     comparing); other header fields beside the asked one, among them the same name in lower case
+//     (no field of a canonical header map) and the other Accept* field carrying ranges that would
+//     change the answer if they were read;
+//   - ParseAccept under other field names (the name is only an index into the map);
+//   - an earlier negotiation on the same request with other offers (the functions keep nothing).
+func c07Decoys(h http.Header, asked string, mix uint32) {
+	if mix>>3&1 == 0 {
+		return
+	}
+	h["Content-Type"] = []string{"a/b;q=1"}
+	h[strings.ToLower(asked)] = []string{"*/*;q=1, *;q=1"}
+	if asked == "Accept" {
+		h["Accept-Encoding"] = []string{"*/*;q=1, text/plain, application/json"}
+		h["Accept-Language"] = []string{"*/*"}
+	} else {
+		h["Accept"] = []string{"*;q=1, gzip, br, identity"}
+		h["Te"] = []string{"*"}
+	}
+}
+
+// c07Request: a request carrying the lines under the asked field
+func c07Request(asked string, lines []string, mix uint32) *http.Request {
+	if mix>>4&3 == 0 {
+		// from the wire, if the parser hands back exactly these lines
+		var sb strings.Builder
+		sb.WriteString("GET /x HTTP/1.1\r\nHost: localhost\r\n")
+		name := asked
+		switch mix >> 6 & 3 {
+		case 1:
+			name = strings.ToLower(asked)
+		case 2:
+			name = strings.ToUpper(asked)
+		}
+		for _, l := range lines {
+			sb.WriteString(name + ": " + l + "\r\n")
+		}
+		if mix>>3&1 == 1 {
+			sb.WriteString("Content-Type: a/b;q=1\r\nAccept-Language: */*\r\n")
+		}
+		sb.WriteString("\r\n")
+		if r, err := http.ReadRequest(bufio.NewReader(strings.NewReader(sb.String()))); err == nil &&
+			len(r.Header[asked]) == len(lines) && (len(lines) == 0 || reflect.DeepEqual(r.Header[asked], lines)) {
+			return r
+		}
+	}
+	r := &http.Request{Method: "GET", Header: http.Header{}}
+	if lines != nil {
+		r.Header[asked] = lines
+	} else if mix>>8&1 == 1 && mix>>3&1 == 0 {
+		r.Header = nil // no header at all
+	}
+	if r.Header != nil {
+		c07Decoys(r.Header, asked, mix)
+	}
+	return r
+}
+
+func c07Reverse(xs []string) []string {
+	out := make([]string, len(xs))
+	for i, x := range xs {
+		out[len(xs)-1-i] = x
+	}
+	return out
+}
+
 func c07Exec(in []string) []string {
+	mix := c05Mix(in)
 	switch in[0] {
 	case "P":
-		h := http.Header{"Accept": proto.UnL(in[1])}
-		specs := header.ParseAccept(h, "Accept")
+		// the field name is the caller's: ParseAccept indexes the map with it as given
+		key := []string{"Accept", "Accept", "Accept-Encoding", "Accept-Language", "X-Offers", "accept", "Accept-Charset", ""}[mix&7]
+		h := http.Header{key: proto.UnL(in[1])}
+		if key != "Accept" {
+			h["Accept"] = []string{"decoy/decoy;q=0.5"}
+		} else {
+			c07Decoys(h, key, mix)
+		}
+		specs := header.ParseAccept(h, key)
 		vals := make([]string, len(specs))
 		qs := make([]string, len(specs))
 		for i, s := range specs {
@@ -50,22 +130,39 @@ func c07Exec(in []string) []string {
 		h := http.Header{"Accept": proto.UnL(in[1]), "Date": proto.UnL(in[1])}
 		_ = header.ParseAccept2(h, "Accept")
 		_ = header.ParseList(h, "Accept")
+		_ = header.ParseList(h, "accept") // ParseList canonicalises the name itself
 		_, _ = header.ParseValueAndParams(h, "Accept")
 		_ = header.ParseTime(h, "Date")
 		_ = header.Copy(h)
+		// every line in the first position (ParseValueAndParams and ParseTime read the first line only)
+		for _, l := range proto.UnL(in[1]) {
+			h1 := http.Header{"Accept": {l}, "Date": {l}}
+			_, _ = header.ParseValueAndParams(h1, "Accept")
+			_ = header.ParseTime(h1, "Date")
+			_ = header.ParseAccept2(h1, "Accept")
+		}
+		_ = header.ParseAccept2(nil, "Accept")
+		_ = header.ParseList(nil, "Accept")
+		_ = header.ParseTime(nil, "Date")
+		_ = header.Copy(nil)
 		return []string{"ok"}
 	case "N":
-		r := &http.Request{Header: http.Header{}}
-		if ls := proto.UnL(in[1]); ls != nil {
-			r.Header["Accept"] = ls
+		r := c07Request("Accept", proto.UnL(in[1]), mix)
+		offers := proto.UnL(in[2])
+		if mix>>9&1 == 1 {
+			// earlier negotiations on the same request: of the other field first, then with other offers and default
+			_ = middleware.NegotiateContentEncoding(r, offers)
+			_ = middleware.NegotiateContentType(r, append(c07Reverse(offers), "warm/up"), "warm")
 		}
-		return []string{proto.B(middleware.NegotiateContentType(r, proto.UnL(in[2]), proto.UnB(in[3])))}
+		return []string{proto.B(middleware.NegotiateContentType(r, offers, proto.UnB(in[3])))}
 	case "E":
-		r := &http.Request{Header: http.Header{}}
-		if ls := proto.UnL(in[1]); ls != nil {
-			r.Header["Accept-Encoding"] = ls
+		r := c07Request("Accept-Encoding", proto.UnL(in[1]), mix)
+		offers := proto.UnL(in[2])
+		if mix>>9&1 == 1 {
+			_ = middleware.NegotiateContentType(r, offers, "warm")
+			_ = middleware.NegotiateContentEncoding(r, append(c07Reverse(offers), "warm"))
 		}
-		return []string{proto.B(middleware.NegotiateContentEncoding(r, proto.UnL(in[2])))}
+		return []string{proto.B(middleware.NegotiateContentEncoding(r, offers))}
 	}
 	panic("C07: unknown stream " + in[0])
 }
@@ -94,7 +191,7 @@ func c07Q(r *proto.Rng) string {
 	case 8:
 		return "0." + r.Bytes("09", 14+r.Intn(4))
 	case 9:
-		return "0.000"
+		return r.Pick("0.000", "0.000", "1.000", "1.", "0.", "1.5", "1.0001", "2", "00.5", "1.000000000000000000001", "0.5.5", "")
 	default:
 		return "0." + r.Bytes("0123456789", 1)
 	}
@@ -116,9 +213,10 @@ func c07Range(r *proto.Rng, enc bool) string {
 	if r.Chance(2, 3) {
 		sb.WriteString(ws() + ";" + ws())
 		if r.Chance(1, 4) {
-			sb.WriteString(r.Pick("charset=utf-8", "level=1", "x=\"a,b\"", "v", "qq=1", "x=q=0") + ws() + ";" + ws())
+			sb.WriteString(r.Pick("charset=utf-8", "level=1", "x=\"a,b\"", "v", "qq=1", "x=q=0", "x=\"a\\\"b\"", "x=\"q=0\"", "x=\"a;q=0\"", "aq=0", "x=\"\\", "x=\"a\\") + ws() + ";" + ws())
 		}
-		sb.WriteString("q=" + c07Q(r))
+		// the quality parameter is spelled "q=" exactly: a capital Q, or white space around '=', is another parameter
+		sb.WriteString(r.Pick("q=", "q=", "q=", "q=", "q=", "q=", "q=", "q=", "q=", "q=", "q=", "q=", "q=", "q=", "q=", "q=", "q=", "Q=", "q =", "q= ") + c07Q(r))
 		if r.Chance(1, 6) {
 			sb.WriteString(ws() + ";" + r.Pick("ext=1", "q=0.9", "x"))
 		}
@@ -143,6 +241,9 @@ func c07Header(r *proto.Rng, enc bool) []string {
 			continue
 		}
 		n := 1 + r.Intn(4)
+		if r.Chance(1, 60) {
+			n = 8 + r.Intn(30) // "any number of ranges"
+		}
 		parts := make([]string, n)
 		for j := range parts {
 			parts[j] = c07Range(r, enc)
@@ -158,10 +259,17 @@ func c07Header(r *proto.Rng, enc bool) []string {
 
 func c07Offers(r *proto.Rng, enc bool) []string {
 	n := r.Intn(5)
+	if r.Chance(1, 40) {
+		n = 5 + r.Intn(8)
+	}
 	out := make([]string, n)
 	for i := range out {
 		if enc {
 			out[i] = r.Pick("gzip", "deflate", "identity", "br")
+			if r.Chance(1, 25) {
+				// offers nobody should make, but a caller can: empty, the wildcard itself, capitals
+				out[i] = r.Pick("", "*", "GZIP", "x-gzip", "gzip;q=1", " gzip")
+			}
 			continue
 		}
 		out[i] = r.Pick(c07Types[:2]...) + "/" + r.Pick("plain", "json", "b", "html", "xml")
@@ -169,10 +277,63 @@ func c07Offers(r *proto.Rng, enc bool) []string {
 			out[i] = r.Pick("a", "image") + "/" + r.Pick("b", "plain")
 		}
 		if r.Chance(1, 5) {
-			out[i] += r.Pick(";charset=utf-8", "; charset=utf-8", ";")
+			out[i] += r.Pick(";charset=utf-8", "; charset=utf-8", ";", ";q=0", "; q=0.5;charset=x", ";;")
+		}
+		if r.Chance(1, 25) {
+			// offers nobody should make, but a caller can: empty, wildcards, capitals, no '/'
+			out[i] = r.Pick("", "*/*", "text/*", "TEXT/plain", "Text/Plain", "text", "/", "text/", "*", " text/plain", "text/plain ")
+		}
+		if r.Chance(1, 12) && i > 0 {
+			out[i] = out[r.Intn(i)] // an offer made twice
 		}
 	}
 	return out
+}
+
+// c07Default: the default offer: none, a type outside the list, one of the offers (as spelled, or
+// without its parameters), a type with parameters
+func c07Default(r *proto.Rng, offers []string) string {
+	switch k := r.Intn(12); {
+	case k < 5:
+		return ""
+	case k < 7:
+		return "application/json"
+	case k < 9:
+		return "dflt"
+	case k == 9 && len(offers) > 0:
+		return offers[r.Intn(len(offers))]
+	case k == 10 && len(offers) > 0:
+		return strings.SplitN(offers[len(offers)-1], ";", 2)[0]
+	default:
+		return r.Pick("text/plain; charset=utf-8", "*/*", "Application/JSON", "a/b")
+	}
+}
+
+// c07Quoted: lines for the totality test of the other parsers: quoted strings with escapes (closed,
+// unclosed, ending in a backslash), parameter lists, dates in the three layouts ParseTime reads
+func c07Quoted(r *proto.Rng) []string {
+	n := 1 + r.Intn(3)
+	lines := make([]string, n)
+	for i := range lines {
+		switch r.Intn(8) {
+		case 0:
+			lines[i] = r.Pick("Mon, 02 Jan 2006 15:04:05 GMT", "Monday, 02-Jan-06 15:04:05 MST", "Mon Jan  2 15:04:05 2006",
+				"Sun, 06 Nov 1994 08:49:37 GMT", "Sunday, 06-Nov-94 08:49:37 GMT", "Sun Nov  6 08:49:37 1994", "Mon, 02 Jan 2006 15:04:05 UTC", "0")
+		case 1:
+			lines[i] = "text/plain; x=\"" + r.Bytes("ab\\\\\"\";=, ", r.Intn(10))
+		case 2:
+			lines[i] = r.Pick("a/b", "form-data", "attachment") + "; " + r.Pick("filename", "x", "Q", "q") + "=\"" + r.Bytes("ab\\\"", r.Intn(8)) + "\"" + r.Pick("", "; q=0.5", ", c/d;q=\"0.\\5\"", ";y")
+		case 3:
+			lines[i] = "\"" + r.Bytes("a,\\\"", r.Intn(8)) + r.Pick("", "\"", "\", b", "\\")
+		default:
+			parts := make([]string, 1+r.Intn(3))
+			for j := range parts {
+				parts[j] = c07Range(r, false)
+			}
+			lines[i] = strings.Join(parts, r.Pick(",", ", ", " ,"))
+		}
+	}
+	return lines
 }
 
 func c07Gen(r *proto.Rng, n int, tier string, emit func(in ...string)) {
@@ -180,10 +341,13 @@ func c07Gen(r *proto.Rng, n int, tier string, emit func(in ...string)) {
 		switch {
 		case i%40 == 39:
 			emit("T", proto.L(c07Header(r, i%80 == 79)))
+		case i%40 == 19:
+			emit("T", proto.L(c07Quoted(r)))
 		case i%10 < 2:
 			emit("P", proto.L(c07Header(r, false)))
 		case i%10 < 8:
-			emit("N", proto.L(c07Header(r, false)), proto.L(c07Offers(r, false)), proto.B(r.Pick("", "", "application/json", "dflt")))
+			offers := c07Offers(r, false)
+			emit("N", proto.L(c07Header(r, false)), proto.L(offers), proto.B(c07Default(r, offers)))
 		default:
 			emit("E", proto.L(c07Header(r, true)), proto.L(c07Offers(r, true)))
 		}
